@@ -372,7 +372,7 @@ func Run(c *core.Ctx) core.FinishOpts {
 		Level: "exploration",
 		Rule: "cases = generated files with kept ground truth (json: random nested specs, first <=40 rows free, later rows re-draw a preview row's shape; csv/tsv: typed and mixed columns, " +
 			"quoting, header on/off; lines: 8 separators, lines around the 64 KiB token limit; parquet: required/optional/repeated/LIST/group columns), each materialised with all, " +
-			"some or none of the columns; legs = in-process, child processes GOMAXPROCS {1,2,4,16} x {no delay, 5 delay seeds}, race build, CLI files, CLI stdin in chunks; " +
+			"some or none of the columns and, in-process, re-run (a second node from the same implementation interleaved; runs cut short by a consumer error after 0, 1, 64, n/2 or n-1 records; every full run must equal the first) under a hostile consumer that appends to / overwrites the records it was handed; legs = in-process, child processes GOMAXPROCS {1,2,4,16} x {no delay, 5 delay seeds}, race build, CLI files, CLI stdin in chunks, CLI scalar-subquery-with-LIMIT and LOOKUP-JOIN-with-LIMIT shapes over csv/tsv/json; " +
 			"non-trivial = at least 2 rows and 1 compared cell, counts equal and every cell compared to the end (discrepancies found are reported separately); distinct by (leg, file content hash, requested columns / chunking)",
 		Floor: c.Pick(250, 5000),
 		Assumptions: []string{"ground truth = what the generator serialised; numbers are judged against strconv.ParseFloat of the literal (correct rounding)",
@@ -391,6 +391,7 @@ func Run(c *core.Ctx) core.FinishOpts {
 			}
 		}
 		runCLI(c)
+		runCLIRerun(c)
 		return opts
 	}
 
@@ -468,6 +469,7 @@ func Run(c *core.Ctx) core.FinishOpts {
 	t0 = time.Now()
 	// (b) CLI
 	runCLI(c)
+	runCLIRerun(c)
 	walls["cli"] = time.Since(t0).Round(time.Millisecond).String()
 	c.Note("wall_per_leg_group", walls)
 	return opts
